@@ -6,6 +6,7 @@ C07.3  materialisation dispatches totally over tags / proper subtypes / atoms (n
 C07.4  polarity: excluded literal sets are materialised under `!allowed`; negative atoms (only) are wrapped in Not
 """
 import re
+from facts import children as _children
 from facts import walk, strip_block, is_panic_macro_node, WASM
 from rules.c04 import arm_is_panic, pat_variants
 from mirflow import FnFlow, Origins, op_place
@@ -33,26 +34,45 @@ def run(cx, rep):
 
     # ---------------------------------------------------------------- C07.1
     rep.rule("C07.1", "unprintable kinds never reach the printer")
-    pr = [f for f in F.fns.values() if f.name == "print_runtype" and f.crate != WASM]
-    if len(pr) != 1:
-        rep.anchor_missing("C07.1", "print_runtype")
+    # the printer's dispatch over the IR, by role: the functions under src/print/ that match on RuntypeKind; the
+    # kinds whose arm diverges are the ones the printer cannot print
+    pr = [f for f in F.fns.values() if f.crate != WASM and "/src/print/" in (f.file or "") and f.id in F.hir
+          and any(n["k"] == "Match" and (n.get("scrut_adt") or "").endswith("RuntypeKind") and len(n["arms"]) >= 8 for n in walk(F.hir[f.id]["body"]))]
+    if not pr:
+        rep.anchor_missing("C07.1", "the printer's dispatch over RuntypeKind (a match with >= 8 arms under src/print/)")
         return
     U = set()
-    for n in walk(F.hir[pr[0].id]["body"]):
-        if n["k"] == "Match" and (n.get("scrut_adt") or "").endswith("RuntypeKind"):
-            for a in n["arms"]:
-                if arm_is_panic(a["body"]):
-                    for v in pat_variants(a["pat"]):
-                        if v.startswith(RK):
-                            U.add(v[len(RK):])
+    for f_ in pr:
+        for n in walk(F.hir[f_.id]["body"]):
+            if n["k"] == "Match" and (n.get("scrut_adt") or "").endswith("RuntypeKind") and len(n["arms"]) >= 8:
+                for a in n["arms"]:
+                    if arm_is_panic(a["body"]):
+                        for v in pat_variants(a["pat"]):
+                            if v.startswith(RK):
+                                U.add(v[len(RK):])
     rep.ob("C07.1", "U", len(U) >= 1, "no diverging arm found in print_runtype (anchor lost)", pr[0].loc(), sample={"unprintable_kinds": sorted(U)})
     # the sanitiser: method of Runtype that matches on RuntypeKind::AllOf and recurses
+    # (by role: the recursive Runtype method that dispatches on RuntypeKind with an AllOf arm and - itself or through
+    # the private helpers its arms were moved into - asks the engine whether a member is empty)
+    def walk_with_helpers(root, crate, depth=2, seen=None):
+        seen = seen if seen is not None else set()
+        for n in walk(root):
+            yield n
+            if depth > 0 and n["k"] in ("Call", "MethodCall"):
+                cal = n.get("callee") if n["k"] == "Call" else (n.get("resolved") or n.get("callee"))
+                tg = F._callee_gid(crate, cal) if cal else None
+                if tg in F.hir and tg not in seen and F.fns.get(tg) is not None and F.fns[tg].vis != "Public":
+                    seen.add(tg)
+                    for x in walk_with_helpers(F.hir[tg]["body"], crate, depth - 1, seen):
+                        yield x
     san = []
     for g, f in F.fns.items():
         if f.impl_self == "ast::runtype::Runtype" and f.mir and f.kind == "AssocFn":
             t = F.hir.get(g)
-            if t and any(n["k"] == "MethodCall" and (n.get("callee") or "").endswith("SemTypeOps::is_empty") for n in walk(t["body"])) \
-                    and any(g in F.reachable([h], foreign_callbacks=False) for h in F.edges.get(g, ())):
+            if not t or not any(g in F.reachable([h], foreign_callbacks=False) for h in F.edges.get(g, ())):
+                continue
+            own_dispatch = any(n["k"] == "Match" and (n.get("scrut_adt") or "").endswith("RuntypeKind") and any((RK + "AllOf") in pat_variants(a["pat"]) for a in n["arms"]) for n in walk(t["body"]))
+            if own_dispatch and any(n["k"] == "MethodCall" and (n.get("callee") or "").endswith("SemTypeOps::is_empty") for n in walk_with_helpers(t["body"], f.crate)):
                 san.append(f)
     if len(san) != 1:
         rep.anchor_missing("C07.1", "sanitiser (Runtype method that drops empty members and Not members)", str([f.id for f in san]))
@@ -78,7 +98,7 @@ def run(cx, rep):
         for u in sorted(U):
             ok = False
             if allof:
-                for n in walk(allof["body"]):
+                for n in walk_with_helpers(allof["body"], sf.crate):
                     if n["k"] == "Closure":
                         pats = [x for x in walk(n["body"]) if x["k"] in ("P.TupleStruct", "P.Expr", "P.Struct") and (x.get("def") or "") == RK + u]
                         nots = [x for x in walk(n["body"]) if x["k"] == "Unary" and x["op"] == "Not"]
@@ -316,12 +336,21 @@ def run(cx, rep):
                 seen[it[0]] = has_not
             rep.ob("C07.4", "%s/atoms" % f.name, seen == {"positive": False, "negative": True},
                    "%s: Not must wrap exactly the negative atoms of a clause (found %s)" % (f.id, seen), f.loc(), sample={"fn": f.name, "not_applied": seen})
-    rep.floor("C07.4", "negation wrapper call sites under an `allowed` arm", n_mn, 8)
-    rep.floor("C07.4", "clause materialisers (loops over positive / negative atoms)", n_conj, 4)
+    rep.floor("C07.4", "negation wrapper call sites under an `allowed` arm", n_mn, 2)
+    rep.floor("C07.4", "clause materialisers (loops over positive / negative atoms)", n_conj, 1)
     # ---------------------------------------------------------------- C07.7
     rep.rule("C07.7", "twin materialisers agree (list / set, map / mapping)")
     import twins
     twins.twin_rule(cx, rep, "C07.7", r"subtyping/to_schema\.rs", floor=4)
+    # ---------------------------------------------------------------- C07.8
+    rep.rule("C07.8", "a result built from one element of a sequence payload accounts for the whole sequence")
+    carriers = lambda f: f.crate != "canary" and ((f.file or "").endswith(("subtyping/to_schema.rs", "ast/runtype.rs")) or "/src/print/" in (f.file or ""))
+    n78 = prefix_read_rule(F, rep, "C07.8", carriers)
+    rep.floor("C07.8", "first / last / literal-index reads in the materialiser, the IR and the printer", n78, 1)
+    if cx.canary is not None:
+        hits = prefix_read_rule(cx.canary, None, None, lambda f: True, collect=True)
+        rep.ob("C07.8", "control/canary-prefix", any("prefix_truncating" in h for h in hits) and not any("prefix_guarded" in h or "prefix_with_rest" in h for h in hits),
+               "positive control: the canary crate's truncating read must be reported and its guarded / rest-using twins must not (reported: %s)" % hits, "canary/rs/src/lib.rs")
 
 
 ACCESSOR_FAMILY = {"get_mapping_atomic": "mapping", "get_map_atomic": "map", "get_list_atomic": "list", "get_set_atomic": "set"}
@@ -534,3 +563,166 @@ def producers(F, u):
         if (c.best or "").endswith("Runtype::st_not") and u == "StNot":
             out.add(c.fn.id.rsplit("::", 1)[-1])
     return sorted(out)
+
+
+# ---------------------------------------------------------------------------
+# C07.8
+
+PREFIX_METHODS = {"first", "last", "first_mut", "last_mut"}
+VIEW_METHODS = {"as_slice", "as_mut_slice", "iter", "deref", "as_ref", "borrow", "clone", "to_vec", "as_mut", "deref_mut"}
+
+
+def _seq_key(e):
+    """identity of a sequence expression: root local + field path, views stripped"""
+    path = []
+    while True:
+        k = e["k"]
+        if k in ("AddrOf", "Unary", "DropTemps", "Cast"):
+            e = e.get("e") or e.get("expr")
+            if e is None:
+                return None
+            continue
+        if k == "MethodCall" and e["method"] in VIEW_METHODS and not e["args"]:
+            e = e["recv"]
+            continue
+        if k == "Field":
+            path.append(e["name"])
+            e = e["e"]
+            continue
+        if k == "Path" and e.get("res") == "local":
+            return (e["lid"], tuple(reversed(path)))
+        return None
+
+
+def _is_seq_ty(t):
+    t = (t or "").lstrip("&").replace("mut ", "").strip()
+    return t.startswith(("std::vec::Vec<", "[", "std::collections::VecDeque<", "smallvec::"))
+
+
+def prefix_reads(tree):
+    """[(node, sequence key, sequence expr)] for v.first() / v.last() / v.get(<literal>) / v[<literal>]"""
+    out = []
+    for n in walk(tree["body"]):
+        if n["k"] == "MethodCall":
+            if n["method"] in PREFIX_METHODS and not n["args"] and _is_seq_ty(n["recv"].get("ty")):
+                out.append((n, _seq_key(n["recv"]), n["recv"]))
+            elif n["method"] == "get" and len(n["args"]) == 1 and n["args"][0]["k"] == "Lit" and n["args"][0].get("lit") == "int" and _is_seq_ty(n["recv"].get("ty")):
+                out.append((n, _seq_key(n["recv"]), n["recv"]))
+        elif n["k"] == "Index" and n["i"]["k"] == "Lit" and n["i"].get("lit") == "int" and _is_seq_ty(n.get("base_ty")):
+            out.append((n, _seq_key(n["e"]), n["e"]))
+    return [x for x in out if x[1] is not None]
+
+
+def prefix_read_rule(F, rep, rid, select, collect=False):
+    """The materialiser and the printer hand a computed type on: whatever they build from a sequence payload (the items
+    of a template literal, the members of a union, the cases of a table entry) must account for the WHOLE sequence.
+    Reading only its first / last / k-th element is sound under a length test, or when the rest of the sequence is used
+    next to it - on its own it truncates: `Exclude<\\`a${string}\\` | null, null>` was materialised as the constant `a`
+    (repaired by the fix recorded in known_findings.json).
+    Decided for every v.first() / v.last() / v.get(<literal>) / v[<literal>] on a Vec / slice in the selected files:
+    (a) a test of v.len() / v.is_empty() (or a slice pattern on v) occurs at or before it in the function, or
+    (b) the region that consumes the element - the arm that binds it, the then-branch of the `if let`, the statements
+        after the `let` - uses v again (other than by another prefix read)."""
+    hits = []
+    n_reads = 0
+    for g in sorted(F.hir):
+        f = F.fns.get(g)
+        if f is None or not select(f):
+            continue
+        tree = F.hir[g]
+        reads = prefix_reads(tree)
+        if not reads:
+            continue
+        parents = {}
+        for n in walk(tree["body"]):
+            for c in _children(n):
+                parents[id(c)] = n
+        read_ids = {id(r[0]) for r in reads}
+        # length tests / slice patterns per sequence key
+        len_lines = {}
+        for n in walk(tree["body"]):
+            if n["k"] == "MethodCall" and n["method"] in ("len", "is_empty") and not n["args"]:
+                k = _seq_key(n["recv"])
+                if k is not None:
+                    len_lines.setdefault(k, []).append(n["line"])
+            if n["k"] == "Match":
+                k = _seq_key(n["scrut"])
+                if k is not None and any(p["k"] == "P.Slice" for a in n["arms"] for p in walk(a["pat"])):
+                    len_lines.setdefault(k, []).append(n["line"])
+            if n["k"] == "Let" and n.get("init") is not None:
+                k = _seq_key(n["init"])
+                if k is not None and any(p["k"] == "P.Slice" for p in walk(n["pat"])):
+                    len_lines.setdefault(k, []).append(n["line"])
+
+        def uses_seq(region, key):
+            for x in walk(region):
+                if id(x) in read_ids:
+                    continue
+                if x["k"] in ("Path", "Field") and _seq_key(x) == key:
+                    par = parents.get(id(x))
+                    # part of a longer field chain of the same expression: judged at the outermost node
+                    if par is not None and par["k"] == "Field" and par.get("e") is x:
+                        continue
+                    # directly the receiver / base of one of the prefix reads
+                    cur, skip = x, False
+                    while id(cur) in parents:
+                        p2 = parents[id(cur)]
+                        if id(p2) in read_ids and (p2.get("recv") is cur or p2.get("e") is cur):
+                            skip = True
+                            break
+                        if p2["k"] in ("AddrOf", "Unary", "DropTemps") or (p2["k"] == "MethodCall" and p2["method"] in VIEW_METHODS and p2.get("recv") is cur):
+                            cur = p2
+                            continue
+                        break
+                    if not skip:
+                        return True
+            return False
+        for node, key, seq in reads:
+            n_reads += 1
+            ok = any(l <= node["line"] for l in len_lines.get(key, ()))
+            why = "length test" if ok else None
+            if not ok:
+                # find the consuming region
+                cur = node
+                regions = None
+                while id(cur) in parents and regions is None:
+                    par = parents[id(cur)]
+                    if par["k"] == "Match" and par.get("scrut") is cur:
+                        regions = [a["body"] for a in par["arms"] if any(p["k"] == "P.Binding" for p in walk(a["pat"]))]
+                        if any(a.get("guard") is not None and uses_seq(a["guard"], key) for a in par["arms"]):
+                            regions = []
+                    elif par["k"] == "Let" and par.get("init") is cur:
+                        gp = parents.get(id(par))
+                        while gp is not None and gp["k"] != "If":
+                            gp = parents.get(id(gp))
+                        regions = [gp["then"]] if gp is not None else None
+                    elif par["k"] == "LetStmt" and par.get("init") is cur:
+                        blk = parents.get(id(par))
+                        if blk is not None and blk["k"] == "Block":
+                            after, seen_ = [], False
+                            for st in blk["stmts"]:
+                                if st is par:
+                                    seen_ = True
+                                elif seen_:
+                                    after.append(st)
+                            if blk.get("expr") is not None:
+                                after.append(blk["expr"])
+                            regions = after
+                    elif par["k"] in ("Arm", "Block", "Closure") and regions is None and par["k"] != "Block":
+                        regions = [par.get("body") or par]
+                    cur = par
+                if regions is None:
+                    regions = [tree["body"]]
+                ok = all(uses_seq(r, key) for r in regions) if regions else True
+                why = "rest of the sequence used in the consuming region" if ok else None
+            short = g.rsplit("::", 1)[-1]
+            what = (node.get("method") or "[%s]" % node["i"]["v"])
+            kid = "%s/%s.%s" % (short, ".".join(key[1]) or "local", what)
+            if collect:
+                if not ok:
+                    hits.append(g)
+                continue
+            rep.ob(rid, kid, ok,
+                   "%s reads only `%s` of a sequence (%s) and builds its result from that element: no length test precedes the read and the rest of the sequence is not used where the element is consumed, so every longer sequence is truncated (a template literal `a${string}` becomes the constant `a`)" % (
+                       g, what, seq.get("ty")), "%s:%s" % (f.file, node["line"]), sample={"fn": g, "read": what, "sequence_type": seq.get("ty"), "justified_by": why})
+    return hits if collect else n_reads
